@@ -671,10 +671,21 @@ func (s *Sim) Run(root func()) {
 			a.Do()
 		default:
 			qi := 0
-			if len(s.ClockQuanta) > 1 {
-				qi = s.ch.Choose(len(s.ClockQuanta), nil, "quantum")
+			var q time.Duration
+			if len(run) == 0 && len(acts) == 0 {
+				// nothing else can happen: jump to the next timer (the quantum only caps
+				// the jump; no decision is drawn, so idle periods cost no choices)
+				for _, x := range s.ClockQuanta {
+					if x > q {
+						q = x
+					}
+				}
+			} else {
+				if len(s.ClockQuanta) > 1 {
+					qi = s.ch.Choose(len(s.ClockQuanta), nil, "quantum")
+				}
+				q = s.ClockQuanta[qi]
 			}
-			q := s.ClockQuanta[qi]
 			s.Stats.ClockSteps++
 			s.note("clock")
 			before := time.Now()
